@@ -124,8 +124,59 @@ func (v *Validator) typeOfValue(val types.Value) (cedarType, error) {
 	case types.String:
 		return typeString{}, nil
 	case types.EntityUID:
+		return v.typeOfEntityUID(val)
+	// The parser never produces the literals below, but policies decoded from JSON or built
+	// with the ast package may hold them. They have the type of the equivalent expression.
+	case types.Decimal:
+		return typeExtension{"decimal"}, nil
+	case types.IPAddr:
+		return typeExtension{"ipaddr"}, nil
+	case types.Datetime:
+		return typeExtension{"datetime"}, nil
+	case types.Duration:
+		return typeExtension{"duration"}, nil
+	case types.Set:
+		return v.typeOfSetValue(val)
+	case types.Record:
+		return v.typeOfRecordValue(val)
 	}
-	return v.typeOfEntityUID(val.(types.EntityUID))
+	return nil, fmt.Errorf("unexpected literal value of type %T", val)
+}
+
+// typeOfSetValue types a set literal value like the set expression with the same elements.
+func (v *Validator) typeOfSetValue(set types.Set) (cedarType, error) {
+	if v.strict && set.Len() == 0 {
+		return nil, fmt.Errorf("empty set literals are forbidden in policies")
+	}
+	var elemType cedarType = typeNever{}
+	for elem := range set.All() {
+		et, err := v.typeOfValue(elem)
+		if err != nil {
+			return nil, err
+		}
+		if err := v.checkStrictEntityLUB(elemType, et); err != nil {
+			return nil, typeIncompatErr(elemType, et)
+		}
+		lub, err := v.leastUpperBound(elemType, et)
+		if err != nil {
+			return nil, typeIncompatErr(elemType, et)
+		}
+		elemType = lub
+	}
+	return typeSet{element: elemType}, nil
+}
+
+// typeOfRecordValue types a record literal value like the record expression with the same entries.
+func (v *Validator) typeOfRecordValue(rec types.Record) (cedarType, error) {
+	attrs := make(map[types.String]attributeType, rec.Len())
+	for key, val := range rec.All() {
+		t, err := v.typeOfValue(val)
+		if err != nil {
+			return nil, err
+		}
+		attrs[key] = attributeType{typ: t, required: true}
+	}
+	return typeRecord{attrs: attrs}, nil
 }
 
 func (v *Validator) typeOfEntityUID(uid types.EntityUID) (cedarType, error) {
